@@ -256,6 +256,8 @@ func (p *ProjectRunner) initProcessLogs() {
 }
 
 func (p *ProjectRunner) initProcessLog(name string) {
+	p.logsMutex.Lock()
+	defer p.logsMutex.Unlock()
 	p.processLogs[name] = pclog.NewLogBuffer(p.project.LogLength)
 }
 
@@ -649,6 +651,8 @@ func (p *ProjectRunner) GetHostName() (string, error) {
 }
 
 func (p *ProjectRunner) getProcessLog(name string) (*pclog.ProcessLogBuffer, error) {
+	p.logsMutex.Lock()
+	defer p.logsMutex.Unlock()
 	if procLogs, ok := p.processLogs[name]; ok {
 		return procLogs, nil
 	}
@@ -798,7 +802,9 @@ func (p *ProjectRunner) renameProcess(name string, newName string) {
 	}
 	logs := p.removeProcessLogs(name)
 	if logs != nil {
+		p.logsMutex.Lock()
 		p.processLogs[newName] = logs
+		p.logsMutex.Unlock()
 	}
 	state, err := p.GetProcessState(name)
 	if err == nil {
